@@ -32,6 +32,16 @@ CFGS = {
                            attrs=dict(Compressed=True, Wrapper=False, OpState=True, Shadow=True)),
     "vtoc/C-wrapper": dict(pkg="vtocw", files=["openconfig-vtoc.yang"], flags=["-compress_paths"],
                            attrs=dict(Compressed=True, Wrapper=True)),
+    # enum-naming flags (C17 in every tier; all data-plane monitors in the thorough tier)
+    "vt/U-enumflags": dict(pkg="vtue", files=["vt.yang", "vt-aug.yang", "vt-undef.yang"],
+                           flags=["-generate_simple_unions", "-shorten_enum_leaf_names", "-typedef_enum_with_defmod",
+                                  "-enum_suffix_for_simple_union_enums", "-skip_enum_deduplication"],
+                           attrs=dict(Compressed=False, Wrapper=False)),
+    "vtoc/C-enumflags": dict(pkg="vtoce", files=["openconfig-vtoc.yang"],
+                             flags=["-compress_paths", "-generate_simple_unions", "-ignore_shadow_schema_paths",
+                                    "-shorten_enum_leaf_names", "-typedef_enum_with_defmod",
+                                    "-enum_suffix_for_simple_union_enums", "-trim_enum_openconfig_prefix"],
+                             attrs=dict(Compressed=True, Wrapper=False, Shadow=True)),
 }
 
 
